@@ -59,11 +59,11 @@ def work(task):
         prog.obligations = 0
         schemes = ["explicit_euler"]
     try:
-        checks.check_rhs_monitor(prog, view, m)
+        cut = checks.check_rhs_monitor(prog, view, m)
         checks.check_init_defaults(prog, view, m)
         checks.check_euler(prog, view, m)
         if "generalized_rush_larsen" in schemes and task["family"] != "CORPUS":
-            checks.check_grl(prog, view, m, 1e-8)
+            checks.check_grl(prog, view, m, 1e-8, cut=cut)
     finally:
         view.close()
     prog.nontrivial = prog.stats.solver_s > 0
